@@ -64,6 +64,7 @@ type Task struct {
 	ExitSeq    int // driver step at which it exited
 	ExitVT     time.Duration
 	sleeping   bool // inside simrt.Sleep
+	Group      int  // instance the task belongs to (twin runs): inherited from the spawning task
 	gate       chan struct{}
 }
 
@@ -136,8 +137,9 @@ type Sched struct {
 	MaxEvents int
 	Hash      uint64 // running hash of (task, site) releases and select outcomes
 
-	PreemptN  int  // 0: statement-level preemption off; n: park with probability 1/n
-	PoolEvict bool // pool eviction fault enabled
+	SpawnGroup int  // group given to tasks spawned from outside any task (set-up phase)
+	PreemptN   int  // 0: statement-level preemption off; n: park with probability 1/n
+	PoolEvict  bool // pool eviction fault enabled
 
 	// statistics
 	Cover          map[string]int // site|outcome -> hits
@@ -354,11 +356,12 @@ func spawn(name string, lib bool, f func()) {
 		return
 	}
 	s.mu.Lock()
-	t := &Task{ID: len(s.Tasks), Name: name, Lib: lib, gate: make(chan struct{}), State: Parked, Site: name + "/start"}
+	t := &Task{ID: len(s.Tasks), Name: name, Lib: lib, gate: make(chan struct{}), State: Parked, Site: name + "/start", Group: s.SpawnGroup}
 	s.Tasks = append(s.Tasks, t)
 	parent := -1
 	if s.cur != nil {
 		parent = s.cur.ID
+		t.Group = s.cur.Group
 	}
 	s.event(EvSpawn, parent, name, t.ID, "")
 	if lib {
@@ -931,6 +934,7 @@ func (s *Sched) FreeRun() {
 
 // Snapshot describes the tasks (for verdicts and traces).
 type TaskInfo struct {
+	Group   int
 	ExitSeq int
 	ExitVT  time.Duration
 	ID      int
@@ -948,7 +952,7 @@ func (s *Sched) Snapshot() []TaskInfo {
 	defer s.mu.Unlock()
 	out := make([]TaskInfo, 0, len(s.Tasks))
 	for _, t := range s.Tasks {
-		ti := TaskInfo{ExitSeq: t.ExitSeq, ExitVT: t.ExitVT, ID: t.ID, Name: t.Name, Lib: t.Lib, State: t.State.String(), Site: t.Site, Steps: t.Steps}
+		ti := TaskInfo{Group: t.Group, ExitSeq: t.ExitSeq, ExitVT: t.ExitVT, ID: t.ID, Name: t.Name, Lib: t.Lib, State: t.State.String(), Site: t.Site, Steps: t.Steps}
 		if t.Panic != nil {
 			ti.Panic = fmt.Sprint(t.Panic)
 			ti.Stack = t.PanicStack
